@@ -7,7 +7,7 @@ from harness.core import C, S, Some, Z
 from harness.memrun import DEFAULT, TICK, cmd_to_coq, dec, enc, res_to_coq, val_to_coq
 
 KEYS = ["a", "b", "c", "ab"]
-VALUES = [1, 2, 7, 0, 0, "x", "y"]
+VALUES = [1, 2, 7, 0, 0, "x", "y", None, ""]      # (no bytes: the facade stores them encoded, the raw snapshots of the observer would differ)
 
 
 class Boom(Exception):
@@ -31,11 +31,11 @@ def gen_cmd(rng, keys, reads=True):
         return ["get_match", rng.choice(["a", "", "b"])]
     if r < 0.55: return ["set", k, enc(rng.choice(VALUES)), ttl, rng.choice([None, None, None, True, False])]
     if r < 0.62: return ["set_many", [[kk, enc(rng.choice(VALUES))] for kk in rng.sample(keys, rng.randint(1, 2))], ttl]
-    if r < 0.74: return ["incr", k, rng.choice([1, 1, 2, -1, -1, -2]), ttl]
+    if r < 0.74: return ["incr", k, rng.choice([1, 1, 2, -1, -1, -2, 0]), ttl]
     if r < 0.84: return ["delete", k]
     if r < 0.88: return ["delete_many", [rng.choice(keys) for _ in range(rng.randint(1, 2))]]
     if r < 0.93: return ["delete_match", rng.choice(["a", "b", ""])]
-    return ["expire", k, rng.choice([8, 32, 1600])]
+    return ["expire", k, rng.choice([8, 32, 1600, 0])]
 
 
 def gen_case(rng, writes_only=False, maxlen=15):
@@ -49,7 +49,8 @@ def gen_case(rng, writes_only=False, maxlen=15):
         cmds.append([adv, gen_cmd(rng, keys, reads=not writes_only)])
     return {"mode": rng.choice(["fast", "locked", "serializable"]), "init": init, "cmds": cmds,
             "ending": rng.choice(["commit", "commit", "commit", "rollback", "raise", "cancel"]),
-            "nested": rng.choice([False, False, False, False, "fresh", "same", "same_twice"])}
+            "nested": rng.choice([False, False, False, False, "fresh", "same", "same_twice"]),
+            "default_mode": rng.random() < 0.3}      # the mode comes from set_transaction_mode(), cache.transaction() is called without arguments
 
 
 async def _apply(cache, c):
@@ -96,7 +97,11 @@ def run(case):
         mode = {"fast": TransactionMode.FAST, "locked": TransactionMode.LOCKED, "serializable": TransactionMode.SERIALIZABLE}[case["mode"]]
         steps, anomaly = [], None
         try:
-            uow = cache.transaction(mode=mode)
+            if case.get("default_mode"):
+                cache.set_transaction_mode(mode)
+                uow = cache.transaction()
+            else:
+                uow = cache.transaction(mode=mode)
             nested = case["nested"]          # False | True/"fresh": a new context object per inner block | "same": the outer object re-entered
             async with uow as tx:
                 half = len(case["cmds"]) // 2
@@ -104,7 +109,7 @@ def run(case):
                     if adv: await asyncio.sleep(adv * TICK)
                     t = tick()
                     if nested and i >= half:
-                        inner = uow if nested in ("same", "same_twice") else cache.transaction(mode=mode)
+                        inner = uow if nested in ("same", "same_twice") else (cache.transaction() if case.get("default_mode") else cache.transaction(mode=mode))
                         async with inner:
                             if nested == "same_twice":
                                 async with uow:
